@@ -85,6 +85,15 @@ def mixed_list(gen, base):
             item["dtype"] = rng.choice(["float32", "float16"]) if flavour == "float" else \
                 rng.choice(["int8", "int16"])
             items.append(item)
+    if rng.random() < 0.3 and len(base) >= 1:
+        # a nested list whose rows have different number types (first row ints, later rows
+        # non-integral floats): numpy's array of it is float64
+        ncol = base[-1]
+        rows = [[rng.choice([1, 2, -3, 0]) for _ in range(ncol)],
+                [rng.choice([0.5, 1.5, -2.25, 0.1]) for _ in range(ncol)]]
+        if rng.random() < 0.5:
+            rows.append([rng.choice([1, 4]) for _ in range(ncol)])
+        return {"k": "list", "data": rows}
     return {"k": "plist", "items": items}
 
 
